@@ -315,7 +315,7 @@ def scenarios(tier, seed):
         S.append(Scenario("validation/%s" % w, sc_validation, family="validation", params=dict(what=w)))
     for m in ("central", "one-sided", "given-bounds"):
         S.append(Scenario("arrows/%s" % m, sc_arrows, family="arrows", params=dict(mode=m)))
-    S.append(Scenario("numeric/values", sc_numeric))
+    S.append(Scenario("numeric/values", sc_numeric, concrete_only=True))
     S.append(Scenario("twin/wrong-dof", sc_twin_wrong_dof, twin=True))
     S.append(Scenario("twin/sigma-not-squared", sc_twin_sigma_not_squared, twin=True))
     return S
